@@ -52,6 +52,11 @@ type env struct {
 	ssigs [][]byte // Schnorr signatures by spriv[i] over dig[i]
 	dst   [][]byte // shared domain separation tags (two tags that share a prefix and a backing array)
 	rs    [][3][]byte
+	// operand lists that all goroutines hand to the multi-scalar routines as they are (the slices themselves are
+	// shared read-only operands, not only the objects in them); a zero scalar and an identity point sit in the
+	// middle.  shS0 / shP0 remember which objects the lists held when they were built.
+	shS, shS0 []*secp256k1.Scalar
+	shP, shP0 []*secp256k1.Point
 }
 
 // raw is the drawn material an env is built from; building twice gives two
@@ -118,6 +123,9 @@ func build(t fataler, r raw, sigsFrom *env) *env {
 		e.scs = append(e.scs, lib.Sc(r.scs[i]))
 	}
 	_ = sigsFrom
+	e.shS = []*secp256k1.Scalar{e.scs[0], secp256k1.NewScalar(), e.scs[1], e.scs[2], e.scs[0]}
+	e.shP = []*secp256k1.Point{e.pts[0], e.pts[1], secp256k1.NewIdentityPoint(), e.pts[2], e.pts[1]}
+	e.shS0, e.shP0 = append([]*secp256k1.Scalar(nil), e.shS...), append([]*secp256k1.Point(nil), e.shP...)
 	// The signatures the verify operations consume are made by the reference, so that setting up an
 	// env never calls into the library's signing / hashing code (a lazily initialised package-level
 	// cache must still be cold when the concurrent phase of a fresh process starts).
@@ -168,6 +176,9 @@ var kinds = []string{
 	// (the call must fail), after which the same key objects sign with a working source: the signature is the
 	// function of (key, digest, entropy) it always is - what a pristine object of the same key returns
 	"reader.fails",
+	// the multi-scalar routines on operand lists that every goroutine passes as they are: the lists belong to
+	// the caller and are read-only operands like the objects in them
+	"point.multimult.shared-lists",
 }
 
 // selfCheckFailed prefixes the result of an operation whose own oracle failed (in whichever phase it ran).
@@ -352,6 +363,19 @@ func (e *env) exec(o op) []byte {
 		ssig, err := e.spriv[i].Sign(nil, e.dig[j], nil)
 		out = append(out, flag(err == nil && e.spriv[i].PublicKey().Verify(e.dig[j], ssig))...)
 		return out
+	case "point.multimult.shared-lists":
+		r := secp256k1.NewIdentityPoint()
+		if o.C%2 == 0 {
+			r.MultiScalarMultVartime(e.shS, e.shP)
+		} else {
+			r.MultiScalarMult(e.shS, e.shP)
+		}
+		for x := range e.shS0 {
+			if e.shS[x] != e.shS0[x] || e.shP[x] != e.shP0[x] {
+				return []byte(selfCheckFailed + fmt.Sprintf("element %d of the operand lists passed to MultiScalarMult[Vartime] is another object than before the call: the routine rearranged its caller's slices", x))
+			}
+		}
+		return r.CompressedBytes()
 	case "reader.fails":
 		var out []byte
 		_, err := e.priv[i].Sign(&dryReader{n: (o.C*7 + o.A) % 32}, e.dig[j], nil)
